@@ -549,6 +549,21 @@ func init() {
 					eventsOffAgree(c, t, rc, bd, av)
 				}
 			}
+			// the size boundary: 16384 real nodes (32768 with event nodes) and one step below it - either rejected or the same
+			// results as without events (operand stack kept shallow: a left-nested chain)
+			sizes := []int{5460}
+			if c.Thor {
+				sizes = []int{5460, 5459}
+			}
+			for _, levels := range sizes {
+				t := gop("+", gvar("i0"), gconst(int64(1)), gconst(int64(1)))
+				for k := 0; k < levels; k++ {
+					t = gop("+", t, gvar("i0"), gconst(int64(1)))
+				}
+				bd := randBinding(r)
+				bd.Vals["i0"] = int64(2)
+				eventsOffAgree(c, t, &RunCfg{Opts: optSubset(0, true), Events: true, VarNames: []string{"i0"}}, bd, nil)
+			}
 			return []*Batch{b}
 		},
 	})
@@ -626,7 +641,11 @@ func eventsOffAgree(c *RunCtx, t *GT, rc *RunCfg, bd *Binding, av map[string]boo
 			dump[i] = fmt.Sprintf("compile: %v %v", err, pan)
 			continue
 		}
-		dump[i] = eval.Dump(e)
+		if len(src) < 20000 {
+			dump[i] = eval.Dump(e)
+		} else {
+			dump[i] = "(not dumped: very large program)"
+		}
 		for j, try := range []bool{false, true} {
 			f := &RecFetcher{Vals: bd.Vals}
 			if try {
@@ -642,8 +661,8 @@ func eventsOffAgree(c *RunCtx, t *GT, rc *RunCfg, bd *Binding, av map[string]boo
 		}
 	}
 	c.Extra["events_on_off_pairs"] = asInt(c.Extra["events_on_off_pairs"]) + 1
-	if strings.HasPrefix(dump[0], "compile:") && strings.Contains(dump[0], "event nodes cannot exceed") {
-		return
+	if strings.HasPrefix(dump[0], "compile:") && strings.Contains(dump[0], "32767") && !strings.HasPrefix(dump[1], "compile:") {
+		return // the event-mode program exceeds the node limit: rejected, as the plain one is not
 	}
 	if dump[0] != dump[1] {
 		c.Direct = append(c.Direct, DirectViolation{What: fmt.Sprintf("the decompiled program changes with the event options: %q vs %q", clip(dump[0], 200), clip(dump[1], 200)), Sig: "events-change-dump", Sample: src})
@@ -693,7 +712,11 @@ func libraryCtxCase(c *RunCtx, r *Rand) {
 	for _, n := range intVars {
 		vals[n] = int64(r.Intn(7)) - 2
 	}
-	undefined := r.Intn(4) == 0
+	if r.Intn(3) == 0 { // variables bound to nil ARE available (name-indexed and key-indexed fetchers alike)
+		vals[pick(r, boolVars)] = nil
+		vals[pick(r, intVars)] = nil
+	}
+	undefined := r.Intn(3) == 0
 	opts := []eval.Option{eval.RegVarAndOp(vals)}
 	if r.Bool() {
 		opts = append(opts, eval.Optimizations(false))
